@@ -5,7 +5,7 @@ Ops (JSON):
   {"op":"def", "ty": <cls type node>}                   define a class family (nested definitions included)
   {"op":"defsub", "name": N, "base": B, "fields": [[name, tyname, default_src]]}   subclass of an existing class
   {"op":"bind", "cls": name, "kind": "load"|"dump", "meta": {...}}                 LoadMeta/DumpMeta(**meta).bind_to(cls)
-  {"op":"load", "cls": name, "doc": <json>, "via": "fromdict"|"method"|"fromlist"|"method_list"|"json"|"json_list"}
+  {"op":"load", "cls": name, "doc": <json>, "via": "fromdict"|"method"|"fromlist"|"method_list"|"json"|"json_list"|"yaml"|"toml"}
   {"op":"dump", "cls": name, "expr": <python expression building the instance in the family namespace>,
                 "via": "asdict"|"method"|"to_json"|"list_to_json"|"yaml"|"toml"}
   {"op":"src", "src": <python source>, "defines": [names], "requires": [names]}   free-form definitions (subclasses, mixins, hooks)
@@ -90,6 +90,12 @@ class World:
                     return ['ok', _canon_obj(cls.from_json(json.dumps(doc)))]
                 if via == 'json_list':
                     return ['ok', _canon_obj(list(cls.from_json(json.dumps([doc]))))]
+                if via == 'yaml':
+                    import yaml
+                    return ['ok', _canon_obj(cls.from_yaml(yaml.safe_dump(doc, sort_keys=False)))]
+                if via == 'toml':
+                    import tomli_w
+                    return ['ok', _canon_obj(cls.from_toml(tomli_w.dumps(doc)))]
                 if via != 'fromdict':
                     raise ValueError(via)
                 return ['ok', _canon_obj(fromdict(cls, doc))]
@@ -102,10 +108,12 @@ class World:
                     d = json.loads(x.to_json())
                 elif via == 'list_to_json':
                     d = json.loads(type(x).list_to_json([x]))
-                elif via == 'yaml':
-                    d = ['text', x.to_yaml()]
+                elif via == 'yaml':         # the text is read back with the plain parser, so that outcomes compare structurally
+                    import yaml
+                    d = yaml.safe_load(x.to_yaml())
                 elif via == 'toml':
-                    d = ['text', x.to_toml()]
+                    import tomllib
+                    d = tomllib.loads(x.to_toml())
                 elif via == 'asdict':
                     d = asdict(x)
                 else:
